@@ -13,6 +13,7 @@ ARR = ("arr3", "sarr3")
 NO_UNIQ = ("setint", "stackint", "queueint", "pqint", "tup", "bits8", "vecbool", "dynbits")   # setUniqueData() refused / meaningless
 SORTABLE = ("vecint", "listint", "dequeint", "fwdint", "arr3", "sarr3", "vecstr")
 BITS = ("bits8", "vecbool", "dynbits")                     # values are bit positions; unsetFlag() supported
+WIDE = {"u64": (0, 2 ** 64 - 1), "i64": (-2 ** 63, 2 ** 63 - 1), "u32": (0, 2 ** 32 - 1), "u16": (0, 65535), "i16": (-32768, 32767)}   # other integral types
 GROWBITS = ("vecbool", "dynbits")                          # std::vector<bool>, container::DynamicBitset: grow as needed
 PAIRABLE = ("flag", "int", "str", "dbl", "vecint", "setint", "listint", "dequeint", "vecstr")   # first variable of DEST_PAIR (driver support)
 
@@ -96,6 +97,8 @@ class Gen:
                 a["init"] = r.random() < 0.2
             elif kind == "int":
                 a["init"] = r.choice([0, -1, 42, 7])
+            elif kind in WIDE:
+                a["init"] = T(str(r.choice([0, 7, WIDE[kind][1], WIDE[kind][0]])))     # canonical decimal text
             elif kind == "dbl":
                 a["init"] = r.choice([0, 10, -1, 400])           # quarters: 0, 2.5, -0.25, 100
             elif kind == "level":
@@ -362,6 +365,17 @@ class Gen:
             if r.random() < 0.3:
                 s = "-" + s
             return s
+        if a["kind"] in WIDE:
+            lo, hi = WIDE[a["kind"]]
+            cand = [lo, hi, hi - 1, lo + 1, 0, 1, hi // 2, hi // 2 + 1, 2 ** 15, 2 ** 16, 2 ** 31 - 1, 2 ** 31, 2 ** 32 - 1, 2 ** 32, 2 ** 63 - 1, 2 ** 63, 10 ** 18, 10 ** 19,
+                    r.randint(lo, hi), r.randint(lo, hi), -(2 ** 31), -(2 ** 15)]
+            v = r.choice([x for x in cand if lo <= x <= hi])
+            s = str(v)
+            if v >= 0 and r.random() < 0.08:
+                s = "+" + s
+            if r.random() < 0.08:
+                s = (s[0] + "00" + s[1:]) if s[0] in "+-" else "0" + s
+            return s
         if a["kind"] == "mapsi":
             return r.choice(["a", "b", "c", "k1", "key", "p", "zz"]) + "," + str(r.choice([0, 1, 7, -3, 42, 1000, r.randint(-99999, 99999)]))
         if is_int_kind(a["kind"]):
@@ -421,6 +435,12 @@ class Gen:
         r = self.r
         if a["kind"] == "dbl":
             return r.choice(["x", "1.2.3", "", "1,5", "2.5x", "--1"])
+        if a["kind"] in WIDE:
+            lo, hi = WIDE[a["kind"]]
+            opts = [str(hi + 1), str(hi * 10), "x", "12x", "1.5", "", "0x10", str(hi) + "0"]
+            if lo < 0:
+                opts += [str(lo - 1), str(lo * 10)]
+            return r.choice(opts)
         if a["kind"] == "bits8":
             return r.choice(["8", "9", "x", "100"])
         if a["kind"] == "tup":
